@@ -4,7 +4,7 @@ package muxrun
 //
 //	rx  <proto> <deadline 0|1> <waiting ids|-> <gone ids|-> <item>...   item = hex chunk | T (read-deadline expiry)
 //	rxo ...                                                              same; a frame on a reserved stream / with the compressed flag / a truncated stream (model-vs-code only)
-//	rxk ...                                                              same; >= 5 expiries inside one body: excluded class (known finding)
+//	rxk ...                                                              same; >= 5 expiries inside one body: the loop ends there with the time-out (C01_rx_sync; KF-C01-1 before its repair)
 //	rd  <deadline 0|1> <k> <item>...                                     one Conn.Read of k bytes (enough bytes, < 5 expiries before the k-th)
 //	rdo ...                                                              same; short stream or >= 5 expiries (model-vs-code only)
 //
@@ -114,7 +114,8 @@ func itemsText(items [][]byte) string {
 	return sb.String()
 }
 
-// GenRx draws one script. kf: one frame body is awaited through >= 5 read deadlines (the excluded class).
+// GenRx draws one script. kf: one frame body is awaited through >= 5 read deadlines (class rxk: recv must return the
+// time-out there; before the repair of KF-C01-1 it went on reading inside the body).
 func GenRx(r *vh.Rng, kf bool) (line string, class string) {
 	proto := []int{2, 3, 4}[r.Intn(3)]
 	dl := 1
@@ -266,7 +267,7 @@ func GenRx(r *vh.Rng, kf bool) (line string, class string) {
 	case kf:
 		opw = "rxk"
 	case kinds["reserved-stream"] || kinds["compressed-flag"] || kinds["truncated"]:
-		// outside the hypotheses of C01_rx_sync_partial (frames a server must not send / an incomplete
+		// outside the hypotheses of C01_rx_sync (frames a server must not send / an incomplete
 		// stream): model-vs-code only
 		opw = "rxo"
 	}
